@@ -150,12 +150,17 @@ def theorem_names(prop_file):
 def print_assumptions(prop, names):
     """Run Print Assumptions for every theorem of props/<prop>.v in a fresh coqc process."""
     os.makedirs(CASES, exist_ok=True)
-    path = os.path.join(CASES, f"assume_{prop}.v")
+    path = os.path.join(CASES, f"assume_{prop}_p{os.getpid()}.v")
     with open(path, "w") as f:
         f.write(f"From HD Require Import props.{prop}.\n")
         for n in names:
             f.write(f'Goal True. idtac "@@ {n}". exact I. Qed.\nPrint Assumptions {n}.\n')
     rc, out = sh(["timeout", "600", "coqc", "-noglob", "-Q", COQ, "HD", path], cwd=CASES)
+    for ext in (".v", ".vo", ".vok", ".vos", ".glob"):
+        try:
+            os.remove(path[:-2] + ext)
+        except OSError:
+            pass
     if rc != 0:
         return None, out
     res = {}
@@ -222,18 +227,18 @@ def proofs(prop):
 
 def coq_eval_shard(args):
     prop, idx, header, body, evals = args
-    path = os.path.join(CASES, f"{prop}_{idx}.v")
+    path = os.path.join(CASES, f"{prop}_p{os.getpid()}_{idx}.v")      # unique per process: concurrent runs never collide
     with open(path, "w") as f:
         f.write(header + "\n" + body + "\n")
         for e in evals:
             f.write(f"Eval vm_compute in ({e}).\n")
     rc, out = sh(["timeout", "900", "coqc", "-noglob", "-Q", COQ, "HD", path], cwd=CASES)
-    for ext in (".vo", ".vok", ".vos", ".glob"):
+    for ext in (".vo", ".vok", ".vos", ".glob") + ((".v",) if rc == 0 else ()):
         try:
             os.remove(path[:-2] + ext)
         except OSError:
             pass
-    aux = os.path.join(CASES, f".{prop}_{idx}.aux")
+    aux = os.path.join(CASES, f".{prop}_p{os.getpid()}_{idx}.aux")
     if os.path.exists(aux):
         os.remove(aux)
     if rc != 0:
